@@ -533,3 +533,222 @@ theorem judge_never_notCanonical (t : Table) (regs : List (Nat × Ref)) (model :
         · cases h
 
 end Varpulis.ZddT
+
+/-! ## Part B: tree-level unfolding lemmas used by the refinement proofs -/
+namespace Varpulis.Zdd
+theorem union_empty_left (b : Z) : union .empty b = b := by rw [union.eq_def]; simp
+theorem union_empty_right (a : Z) : union a .empty = a := by rw [union.eq_def]; split <;> simp_all
+theorem union_self (a : Z) : union a a = a := by rw [union.eq_def]; split <;> simp_all
+theorem union_comm (a b : Z) : union a b = union b a := by
+  fun_induction union a b
+  · rw [union_empty_right]
+  · rw [union_empty_left]
+  · rw [union_self]
+  all_goals (conv => rhs; rw [union.eq_def])
+  all_goals try (simp_all [eq_comm]; done)
+  all_goals try (simp_all; grind)
+
+theorem union_lt {av bv : Nat} {alo ahi blo bhi : Z} (h : av < bv) :
+    union (.node av alo ahi) (.node bv blo bhi) = mk av (union alo (.node bv blo bhi)) ahi := by
+  rw [union.eq_def]; simp [h, Nat.ne_of_lt h]
+theorem union_gt {av bv : Nat} {alo ahi blo bhi : Z} (h : bv < av) :
+    union (.node av alo ahi) (.node bv blo bhi) = mk bv (union (.node av alo ahi) blo) bhi := by
+  rw [union.eq_def]; simp [h, Nat.ne_of_gt h, Nat.lt_asymm h]
+theorem union_eq {v : Nat} {alo ahi blo bhi : Z} (h : Z.node v alo ahi ≠ Z.node v blo bhi) :
+    union (.node v alo ahi) (.node v blo bhi) = mk v (union alo blo) (union ahi bhi) := by
+  rw [union.eq_def]; simp [h]
+theorem union_base_node {bv : Nat} {blo bhi : Z} :
+    union .base (.node bv blo bhi) = mk bv (union .base blo) bhi := by
+  rw [union.eq_def]; simp
+
+theorem inter_empty_left (b : Z) : inter .empty b = .empty := by rw [inter.eq_def]; simp
+theorem inter_empty_right (a : Z) : inter a .empty = .empty := by rw [inter.eq_def]; simp
+theorem inter_self (a : Z) : inter a a = a := by rw [inter.eq_def]; split <;> simp_all
+theorem inter_comm (a b : Z) : inter a b = inter b a := by
+  fun_induction inter a b
+  · rename_i h; rcases h with h | h <;> subst h <;> simp [inter_empty_left, inter_empty_right]
+  · rw [inter_self]
+  all_goals (conv => rhs; rw [inter.eq_def])
+  all_goals try (simp_all [eq_comm]; done)
+  all_goals try (simp_all; grind)
+theorem inter_lt {av bv : Nat} {alo ahi blo bhi : Z} (h : av < bv) :
+    inter (.node av alo ahi) (.node bv blo bhi) = inter alo (.node bv blo bhi) := by
+  rw [inter.eq_def]; simp [h, Nat.ne_of_lt h]
+theorem inter_gt {av bv : Nat} {alo ahi blo bhi : Z} (h : bv < av) :
+    inter (.node av alo ahi) (.node bv blo bhi) = inter (.node av alo ahi) blo := by
+  rw [inter.eq_def]; simp [h, Nat.ne_of_gt h, Nat.lt_asymm h]
+theorem inter_eq {v : Nat} {alo ahi blo bhi : Z} (h : Z.node v alo ahi ≠ Z.node v blo bhi) :
+    inter (.node v alo ahi) (.node v blo bhi) = mk v (inter alo blo) (inter ahi bhi) := by
+  rw [inter.eq_def]; simp [h]
+theorem inter_base_node {bv : Nat} {blo bhi : Z} : inter .base (.node bv blo bhi) = inter .base blo := by
+  rw [inter.eq_def]; simp
+theorem inter_node_base {av : Nat} {alo ahi : Z} : inter (.node av alo ahi) .base = inter alo .base := by
+  rw [inter.eq_def]; simp
+
+theorem diff_empty_left (b : Z) : diff .empty b = .empty := by rw [diff.eq_def]; simp
+theorem diff_empty_right (a : Z) : diff a .empty = a := by rw [diff.eq_def]; split <;> simp_all
+theorem diff_self (a : Z) : diff a a = .empty := by rw [diff.eq_def]; split <;> simp_all
+theorem diff_lt {av bv : Nat} {alo ahi blo bhi : Z} (h : av < bv) :
+    diff (.node av alo ahi) (.node bv blo bhi) = mk av (diff alo (.node bv blo bhi)) ahi := by
+  rw [diff.eq_def]; simp [h, Nat.ne_of_lt h]
+theorem diff_gt {av bv : Nat} {alo ahi blo bhi : Z} (h : bv < av) :
+    diff (.node av alo ahi) (.node bv blo bhi) = diff (.node av alo ahi) blo := by
+  rw [diff.eq_def]; simp [h, Nat.ne_of_gt h, Nat.lt_asymm h]
+theorem diff_eq {v : Nat} {alo ahi blo bhi : Z} (h : Z.node v alo ahi ≠ Z.node v blo bhi) :
+    diff (.node v alo ahi) (.node v blo bhi) = mk v (diff alo blo) (diff ahi bhi) := by
+  rw [diff.eq_def]; simp [h]
+theorem diff_base_node {bv : Nat} {blo bhi : Z} : diff .base (.node bv blo bhi) = diff .base blo := by
+  rw [diff.eq_def]; simp
+theorem diff_node_base {av : Nat} {alo ahi : Z} : diff (.node av alo ahi) .base = mk av (diff alo .base) ahi := by
+  rw [diff.eq_def]; simp
+end Varpulis.Zdd
+
+namespace Varpulis.ZddT
+open Varpulis.Zdd
+
+/-! ## Part C: remapping (gc, remap_nodes) -/
+
+theorem mem_of_lookup {α β} [BEq α] [LawfulBEq α] {l : List (α × β)} {k : α} {v : β} (h : l.lookup k = some v) : (k, v) ∈ l := by
+  induction l with
+  | nil => simp at h
+  | cons p ps ih =>
+    obtain ⟨k', v'⟩ := p
+    rw [List.lookup_cons] at h
+    split at h
+    · rename_i heq; simp only [beq_iff_eq] at heq; cases h; subst heq; simp
+    · exact List.mem_cons_of_mem _ (ih h)
+
+theorem mk_node {v : Nat} {lo hi : Z} (h : hi ≠ .empty) : mk v lo hi = .node v lo hi := by simp [mk, h]
+
+/-- remap table: every entry maps an old id to a new ref denoting the same tree -/
+def RMapOK (src nt : Table) (m : RMap) : Prop :=
+  ∀ id r, (id, r) ∈ m → Valid nt r ∧ treeOf nt r = treeOf src (.N id)
+
+theorem RMapOK.mono {src nt nt' : Table} {m : RMap} (hb : Below nt) (hx : Ext nt nt') (h : RMapOK src nt m) :
+    RMapOK src nt' m := by
+  intro id r hm
+  obtain ⟨h1, h2⟩ := h id r hm
+  exact ⟨hx.valid h1, by rw [tree_stable hb hx h1, h2]⟩
+
+theorem remapT_spec {src : Table} (hs : TWF src) : ∀ (fuel : Nat) (nt : Table) (m : RMap) (r : Ref),
+    TWF nt → RMapOK src nt m → Valid src r → r.rank ≤ fuel →
+    ∃ nt' m' r', remapT src fuel nt m r = some (nt', m', r') ∧ Ext nt nt' ∧ TWF nt' ∧ RMapOK src nt' m' ∧
+      Valid nt' r' ∧ treeOf nt' r' = treeOf src r := by
+  intro fuel
+  induction fuel with
+  | zero =>
+    intro nt m r hnt hm hv hr
+    cases r with
+    | E => exact ⟨nt, m, .E, by simp [remapT], Ext.refl _, hnt, hm, by simp, by simp⟩
+    | B => exact ⟨nt, m, .B, by simp [remapT], Ext.refl _, hnt, hm, by simp, by simp⟩
+    | N i => simp at hr
+  | succ fuel ih =>
+    intro nt m r hnt hm hv hr
+    cases r with
+    | E => exact ⟨nt, m, .E, by simp [remapT], Ext.refl _, hnt, hm, by simp, by simp⟩
+    | B => exact ⟨nt, m, .B, by simp [remapT], Ext.refl _, hnt, hm, by simp, by simp⟩
+    | N id =>
+      simp only [rank_N] at hr
+      simp only [remapT]
+      cases hlk : m.lookup id with
+      | some r' =>
+        obtain ⟨h1, h2⟩ := hm id r' (mem_of_lookup hlk)
+        exact ⟨nt, m, r', rfl, Ext.refl _, hnt, hm, h1, h2⟩
+      | none =>
+        obtain ⟨nd, hg⟩ := get_of_valid hv
+        have hcv := hs.toBelow.child_valid hg
+        have hbl := hs.below hg
+        have hoc := tree_ord_child hs hg
+        obtain ⟨nt1, m1, nlo, e1, x1, w1, k1, v1, t1⟩ := ih nt m nd.lo hnt hm hcv.1 (by omega)
+        obtain ⟨nt2, m2, nhi, e2, x2, w2, k2, v2, t2⟩ := ih nt1 m1 nd.hi w1 k1 hcv.2 (by omega)
+        have v1' := x2.valid v1
+        have t1' : treeOf nt2 nlo = treeOf src nd.lo := by rw [tree_stable w1.toBelow x2 v1, t1]
+        have hx3 := getOrCreate_ext nt2 nd.v nlo nhi
+        have hw3 := twf_getOrCreate w2 (v := nd.v) v1' v2 (by rw [t1']; exact hoc.1) (by rw [t2]; exact hoc.2)
+        have hv3 := getOrCreate_valid (v := nd.v) (hi := nhi) v1'
+        have ht3 := tree_getOrCreate w2.toBelow (v := nd.v) v1' v2
+        have hred := tree_red hs hv
+        rw [tree_N hs.toBelow hg, red_node] at hred
+        rw [t1', t2, mk_node hred.1, ← tree_N hs.toBelow hg] at ht3
+        generalize hgc : getOrCreate nt2 nd.v nlo nhi = g at *
+        obtain ⟨nt3, r3⟩ := g
+        refine ⟨nt3, (id, r3) :: m2, r3, by simp [hg, e1, e2, hgc], x1.trans (x2.trans hx3), hw3, ?_, hv3, ht3⟩
+        intro id' r' hmem
+        rcases List.mem_cons.1 hmem with heq | hmem
+        · cases heq; exact ⟨hv3, ht3⟩
+        · exact (k2.mono w2.toBelow hx3) id' r' hmem
+
+
+theorem rmapOK_nil (src nt : Table) : RMapOK src nt [] := by intro id r h; simp at h
+
+theorem remapAll_spec {src : Table} (hs : TWF src) : ∀ (live : List Ref) (nt : Table) (m : RMap),
+    TWF nt → RMapOK src nt m → (∀ h ∈ live, Valid src h) →
+    ∃ nt' m' rs, remapAll src nt m live = some (nt', m', rs) ∧ Ext nt nt' ∧ TWF nt' ∧ RMapOK src nt' m' ∧
+      rs.length = live.length ∧ ∀ p ∈ live.zip rs, Valid nt' p.2 ∧ treeOf nt' p.2 = treeOf src p.1 := by
+  intro live
+  induction live with
+  | nil =>
+    intro nt m hnt hm _
+    exact ⟨nt, m, [], rfl, Ext.refl _, hnt, hm, rfl, by simp⟩
+  | cons h hs' ih =>
+    intro nt m hnt hm hl
+    obtain ⟨nt1, m1, r, e1, x1, w1, k1, v1, t1⟩ := remapT_spec hs h.rank nt m h hnt hm (hl h (by simp)) (Nat.le_refl _)
+    obtain ⟨nt2, m2, rs, e2, x2, w2, k2, len, all⟩ := ih nt1 m1 w1 k1 (fun x hx => hl x (by simp [hx]))
+    refine ⟨nt2, m2, r :: rs, by simp [remapAll, e1, e2], x1.trans x2, w2, k2, by simp [len], ?_⟩
+    intro p hp
+    simp only [List.zip_cons_cons, List.mem_cons] at hp
+    rcases hp with rfl | hp
+    · exact ⟨x2.valid v1, by rw [tree_stable w1.toBelow x2 v1, t1]⟩
+    · exact all p hp
+
+/-! ### arena invariant -/
+
+/-- every cached triple of a binary operation `f` is correct w.r.t. `treeOf` -/
+def Cache2OK (f : Z → Z → Z) (t : Table) (c : Cache2) : Prop :=
+  ∀ a b r, ((a, b), r) ∈ c → Valid t a ∧ Valid t b ∧ Valid t r ∧ treeOf t r = f (treeOf t a) (treeOf t b)
+
+theorem Cache2OK.nil (f : Z → Z → Z) (t : Table) : Cache2OK f t [] := by intro a b r h; simp at h
+
+theorem Cache2OK.mono {f : Z → Z → Z} {t t' : Table} {c : Cache2} (hb : Below t) (hx : Ext t t') (h : Cache2OK f t c) :
+    Cache2OK f t' c := by
+  intro a b r hm
+  obtain ⟨h1, h2, h3, h4⟩ := h a b r hm
+  exact ⟨hx.valid h1, hx.valid h2, hx.valid h3, by
+    rw [tree_stable hb hx h1, tree_stable hb hx h2, tree_stable hb hx h3, h4]⟩
+
+/-- every cached count is the count of the denoted tree -/
+def CacheNOK (t : Table) (c : CacheN) : Prop := ∀ r k, (r, k) ∈ c → Valid t r ∧ k = Zdd.count (treeOf t r)
+
+theorem CacheNOK.nil (t : Table) : CacheNOK t [] := by intro r k h; simp at h
+
+theorem CacheNOK.mono {t t' : Table} {c : CacheN} (hb : Below t) (hx : Ext t t') (h : CacheNOK t c) : CacheNOK t' c := by
+  intro r k hm
+  obtain ⟨h1, h2⟩ := h r k hm
+  exact ⟨hx.valid h1, by rw [tree_stable hb hx h1, h2]⟩
+
+/-- the arena invariant: well-formed table, every entry of every persistent cache correct -/
+structure Arena.OK (s : Arena) : Prop where
+  twf : TWF s.table
+  u : Cache2OK Zdd.union s.table s.ucache
+  i : Cache2OK Zdd.inter s.table s.icache
+  d : Cache2OK Zdd.diff s.table s.dcache
+  c : CacheNOK s.table s.ccache
+
+theorem Arena.ok_empty : Arena.OK {} := ⟨twf_empty, Cache2OK.nil _ _, Cache2OK.nil _ _, Cache2OK.nil _ _, CacheNOK.nil _⟩
+
+/-- **gc**: the returned handles denote the same trees in the new table, which is well-formed; all caches are empty -/
+theorem gc_spec {s : Arena} (hs : TWF s.table) {live : List Ref} (hl : ∀ r ∈ live, Valid s.table r) :
+    ∃ s' roots, s.gc live = some (s', roots) ∧ s'.OK ∧ roots.length = live.length ∧
+      (∀ p ∈ live.zip roots, Valid s'.table p.2 ∧ treeOf s'.table p.2 = treeOf s.table p.1) ∧
+      s'.ucache = [] ∧ s'.icache = [] ∧ s'.dcache = [] ∧ s'.ccache = [] := by
+  obtain ⟨nt, m, rs, e, _, w, _, len, all⟩ := remapAll_spec hs live #[] [] twf_empty (rmapOK_nil _ _) hl
+  refine ⟨{ table := nt }, rs, by simp [Arena.gc, e], ⟨w, Cache2OK.nil _ _, Cache2OK.nil _ _, Cache2OK.nil _ _, CacheNOK.nil _⟩,
+    len, all, rfl, rfl, rfl, rfl⟩
+
+theorem gcCachesOnly_spec {s : Arena} (hs : s.OK) :
+    (s.gcCachesOnly).OK ∧ (s.gcCachesOnly).table = s.table ∧
+      (s.gcCachesOnly).ucache = [] ∧ (s.gcCachesOnly).icache = [] ∧ (s.gcCachesOnly).dcache = [] ∧ (s.gcCachesOnly).ccache = [] :=
+  ⟨⟨hs.twf, Cache2OK.nil _ _, Cache2OK.nil _ _, Cache2OK.nil _ _, CacheNOK.nil _⟩, rfl, rfl, rfl, rfl, rfl⟩
+
+
+end Varpulis.ZddT
